@@ -279,7 +279,7 @@ def observe_by_regex(target: str, root: pathlib.Path, spec: mmgen.Spec) -> List[
                  "AbstractTransformer", "AbstractTransformerWithContext", "TransformerWithDefault",
                  "TransformerWithDefaultAndContext"}
         classes = [m.group(1) for m in re.finditer(r"^export (?:abstract )?class (\w+)", src, flags=re.M)
-                   if m.group(1) not in fixed and not re.fullmatch(r"(As|Is|TypeMatcher)\w*|\w+Transformer", m.group(1))]
+                   if m.group(1) not in fixed and not re.fullmatch(r"TypeMatcher|As\w+Transformer", m.group(1))]
         interfaces = [m.group(1) for m in re.finditer(r"^export interface (\w+)", src, flags=re.M)]
         names = [m.group(1) for m in enums] + classes + interfaces
         if _dups(names):
@@ -526,10 +526,7 @@ def evaluate(spec: mmgen.Spec, methods: List[c21_gen.Method], base: pathlib.Path
                 continue
             res["generated"] += 1
             res["classes"].append(f"{target}:generated")
-            if expected:
-                for sc in sorted({scope_kind(s) for s, _, _ in expected}):
-                    detail = "; ".join(f"{s}: {n!r} <- {labels}" for s, n, labels in expected if scope_kind(s) == sc)
-                    res["fails"].append((f"{target}:unreported-collision:{sc}", f"[{target}] generated (rc=0) although {detail}"))
+            obs = []  # type: List[Tuple[str, str]]
             if observe and d is not None:
                 root = d / "out"
                 try:
@@ -547,9 +544,18 @@ def evaluate(spec: mmgen.Spec, methods: List[c21_gen.Method], base: pathlib.Path
                     raise
                 except Exception as e:  # noqa: the extractor is part of the harness
                     raise runner.HarnessError(f"observation of {target} output failed: {runner.exc_text(e)}")
+            if expected:
+                seen = "; observed in the output: " + " | ".join(m for _, m in obs)[:600] if obs else ""
+                for sc in sorted({scope_kind(s) for s, _, _ in expected}):
+                    detail = "; ".join(f"{s}: {n!r} <- {labels}" for s, n, labels in expected if scope_kind(s) == sc)
+                    res["fails"].append((f"{target}:unreported-collision:{sc}",
+                                         f"[{target}] generated (rc=0) although {detail}{seen}"))
+                if obs:
+                    res["classes"].append(f"{target}:collision-visible-in-output")
+            else:
                 for sc, msg in obs:
-                    tag = "expected" if expected else "unpredicted"
-                    res["fails"].append((f"{target}:declared-names-differ:{sc}:{tag}", f"[{target}] {msg}"))
+                    res["fails"].append((f"{target}:declared-names-differ:{sc}", f"[{target}] {msg}"))
+            if observe and d is not None:
                 res["classes"].append(f"{target}:output-observed")
         finally:
             if d is not None:
